@@ -814,7 +814,7 @@ def _m(name, old, new, rule, file=MG, control=False, count=1):
 MUTANTS = [
     # accessors
     _m("accessor-avg-returns-int", "return sparse_kronecker_product(self._mortar_to_primary_avg, nd)",
-       "return sparse_kronecker_product(self._mortar_to_primary_int, nd)", "R1", control=True),
+       "return sparse_kronecker_product(self._mortar_to_primary_int, nd)", "R1"),
     _m("accessor-secondary-returns-primary", "return sparse_kronecker_product(self._secondary_to_mortar_int, nd)",
        "return sparse_kronecker_product(self._primary_to_mortar_int, nd)", "R1"),
     _m("accessor-ignores-nd", "return sparse_kronecker_product(self._mortar_to_secondary_avg, nd)",
@@ -843,7 +843,7 @@ MUTANTS = [
     # taint
     _m("update-mortar-int-from-averaged",
        "                mat_int = pp.match_grids.match_1d(new_g, g, tol, scaling=\"integrated\")",
-       "                mat_int = pp.match_grids.match_1d(new_g, g, tol, scaling=\"averaged\")", "R4", control=True),
+       "                mat_int = pp.match_grids.match_1d(new_g, g, tol, scaling=\"averaged\")", "R4"),
     _m("update-mortar-swapped-store", "            split_matrix_avg[side] = mat_avg\n            split_matrix_int[side] = mat_int\n\n        # In the case of different side ordering between the input data and the stored\n        # we need to remap it. The resulting matrix will be a block diagonal",
        "            split_matrix_avg[side] = mat_int\n            split_matrix_int[side] = mat_avg\n\n        # In the case of different side ordering between the input data and the stored\n        # we need to remap it. The resulting matrix will be a block diagonal", "R4"),
     _m("update-mortar-avg-times-int-field", "                matrix_avg * self._secondary_to_mortar_avg\n",
@@ -863,7 +863,7 @@ MUTANTS = [
     _m("match-1d-averaged-by-old-volumes",
        "    if scaling == \"averaged\":\n        weights /= new_g.cell_volumes[new_g_ind]\n    elif scaling == \"integrated\":\n        weights /= old_g.cell_volumes[old_g_ind]\n    elif scaling is None:\n        mask = weights > tol\n        new_g_ind = new_g_ind[mask]\n        old_g_ind = old_g_ind[mask]\n        weights = np.ones_like(new_g_ind)\n\n",
        "    if scaling == \"averaged\":\n        weights /= old_g.cell_volumes[old_g_ind]\n    elif scaling == \"integrated\":\n        weights /= old_g.cell_volumes[old_g_ind]\n    elif scaling is None:\n        mask = weights > tol\n        new_g_ind = new_g_ind[mask]\n        old_g_ind = old_g_ind[mask]\n        weights = np.ones_like(new_g_ind)\n\n",
-       "R6", file=MATCH, control=True),
+       "R6", file=MATCH),
     _m("match-2d-integrated-by-new-volumes",
        "        weights /= old_g.cell_volumes[old_g_ind]\n    elif scaling is None:\n        mask = weights > tol\n        new_g_ind = new_g_ind[mask]\n        old_g_ind = old_g_ind[mask]\n        weights = np.ones_like(new_g_ind)\n    else:",
        "        weights /= new_g.cell_volumes[new_g_ind]\n    elif scaling is None:\n        mask = weights > tol\n        new_g_ind = new_g_ind[mask]\n        old_g_ind = old_g_ind[mask]\n        weights = np.ones_like(new_g_ind)\n    else:",
